@@ -1,5 +1,8 @@
 (* C03 — interpolation is exact on the function space spanned by the grid's basis.  Statements only. *)
-From TV Require Import Common.Prelude Proofs.CombinationProofs.
+From TV Require Import Common.Prelude Proofs.CombinationProofs Proofs.LagrangeExact Proofs.SparseInterpExact.
+From Coq Require Import QArith Qcanon.
+Local Close Scope Qc_scope.
+Local Close Scope Q_scope.
 From Coq Require Import Ring ZArith.
 
 Section AnyRing.
@@ -36,5 +39,24 @@ Section AnyRing.
   Qed.
 End AnyRing.
 
+(* UNCONDITIONAL for polynomial interpolation (Global and Sequence grids): the one-dimensional hypothesis is a theorem.  Lagrange
+   interpolation at n pairwise distinct nodes reproduces every polynomial of degree < n, hence for EVERY family of one-dimensional
+   node sets (nested or not, any dimension-dependent nodes) with m(l) + 1 distinct nodes at level l, EVERY lower set Theta, EVERY
+   evaluation point x and EVERY monomial k of the declared space the sparse interpolant of x^k evaluated at x equals x^k. *)
+Theorem c03_lagrange_exact_1d : forall nodes : list Qc, NoDup nodes -> forall k, (k < length nodes)%nat ->
+  forall x, lagrange nodes (fun t => Qcpower t k) x = Qcpower x k.
+Proof. exact lagrange_exact_monomial. Qed.
+
+Theorem c03_sparse_interpolation_exact_unbounded :
+  forall (nodes : nat -> nat -> list Qc) (m : nat -> nat),
+    (forall j l, NoDup (nodes j l)) -> (forall j l, length (nodes j l) = S (m l)) -> (forall l, m l <= m (S l)) ->
+  forall (x : nat -> Qc) d Theta, NoDup Theta -> (forall t, In t Theta -> length t = d) -> lower Theta ->
+  forall k s, In s Theta -> length k = d -> Forall2 (fun kj sj => kj <= m sj) k s ->
+    sumf Qc (Q2Qc 0) Qcplus Theta (fun t => dprod Qc (Q2Qc 1) Qcmult Qcminus (interp_u nodes x) 0 t k)
+    = iprod Qc (Q2Qc 1) Qcmult (interp_I x) 0 k.
+Proof. exact sparse_interpolation_exact. Qed.
+
 Print Assumptions c03_combination_exact.
 Print Assumptions c03_weights_sum_to_one.
+Print Assumptions c03_lagrange_exact_1d.
+Print Assumptions c03_sparse_interpolation_exact_unbounded.
